@@ -111,3 +111,72 @@ func H_C17_equal_lists() {
 	vpAssert(!Equal(Int32(a0), Int64(int64(a0))), "different format never equal")
 	vpCover("reached")
 }
+
+// CompareVals over tuples of every key type whose Compare may return a
+// magnitude other than -1/0/1 (Int32 and Enum return differences).
+func lexWant(c0, c1 int) int {
+	if c0 != 0 {
+		return c0
+	}
+	return c1
+}
+
+func cmpI64(a, b int64) int {
+	if a < b {
+		return -1
+	}
+	if a > b {
+		return 1
+	}
+	return 0
+}
+
+func H_C17_compareVals_enum_int32() {
+	e0, f0 := vpInt32(), vpInt32()
+	a1, b1 := vpInt32(), vpInt32()
+	x := []Value{Enum{Id: int(e0), Label: "x"}, Int32(a1)}
+	y := []Value{Enum{Id: int(f0), Label: "y"}, Int32(b1)}
+	vpAssert(sgn(CompareVals(x, y)) == lexWant(cmpI64(int64(e0), int64(f0)), cmpI64(int64(a1), int64(b1))), "lexicographic (enum, int32)")
+	vpAssert(sgn(CompareVals(y, x)) == -sgn(CompareVals(x, y)), "antisymmetric on tuples")
+	vpCover("reached")
+}
+
+func H_C17_compareVals_int32_enum() {
+	e0, f0 := vpInt32(), vpInt32()
+	a1, b1 := vpInt32(), vpInt32()
+	x := []Value{Int32(a1), Enum{Id: int(e0), Label: "x"}}
+	y := []Value{Int32(b1), Enum{Id: int(f0), Label: "y"}}
+	vpAssert(sgn(CompareVals(x, y)) == lexWant(cmpI64(int64(a1), int64(b1)), cmpI64(int64(e0), int64(f0))), "lexicographic (int32, enum)")
+	vpCover("reached")
+}
+
+func H_C17_compareVals_string_uint64() {
+	s0, t0 := vpString(1), vpString(1)
+	a1, b1 := vpUint64(), vpUint64()
+	x := []Value{String(s0), UInt64(a1)}
+	y := []Value{String(t0), UInt64(b1)}
+	c0 := 0
+	if s0 < t0 {
+		c0 = -1
+	} else if s0 > t0 {
+		c0 = 1
+	}
+	c1 := 0
+	if a1 < b1 {
+		c1 = -1
+	} else if a1 > b1 {
+		c1 = 1
+	}
+	vpAssert(sgn(CompareVals(x, y)) == lexWant(c0, c1), "lexicographic (string, uint64)")
+	vpAssert(EqualVals(x, y) == (s0 == t0 && a1 == b1), "EqualVals")
+	vpCover("reached")
+}
+
+func H_C17_compareVals_three() {
+	a, b := [3]int8{vpInt8(), vpInt8(), vpInt8()}, [3]int8{vpInt8(), vpInt8(), vpInt8()}
+	x := []Value{Int8(a[0]), Int8(a[1]), Int8(a[2])}
+	y := []Value{Int8(b[0]), Int8(b[1]), Int8(b[2])}
+	want := lexWant(cmpI64(int64(a[0]), int64(b[0])), lexWant(cmpI64(int64(a[1]), int64(b[1])), cmpI64(int64(a[2]), int64(b[2]))))
+	vpAssert(sgn(CompareVals(x, y)) == want, "lexicographic over three positions")
+	vpCover("reached")
+}
